@@ -32,6 +32,13 @@ RULE = ("kinds: roundtrip (both shipped sample types, declared size 1..14, 0..13
         "ops (add_theta/get_theta sequences incl. negative and too large indices, declared <= 0).  "
         "Non-trivial: at least one stored sample / one operation; distinct by case description.")
 THEOREMS = {
+    "C10_model_is_source_init": "the Gallina translation of the whole method ThetaHolder.__init__, regenerated from /repo's current source on this run (Generated/SrcThetas.v), turns ANY fresh instance into (same class, declared size n, no samples) = the model's empty_holder n",
+    "C10_model_is_source_n_thetas": "the translation of the whole property ThetaHolder.n_thetas returns the model's declared size, for every object",
+    "C10_model_is_source_get_theta": "the translation of the whole method ThetaHolder.get_theta (bound check, raise, self.thetas[step_index] with Python's list indexing) equals the model's get_theta on the object's attribute values, for every object and every integer index",
+    "C10_model_is_source_add_theta": "the translation of the whole method ThetaHolder.add_theta (which mutates self: the translation denotes the new self) equals the model's add_theta on the attribute values, same class, for every object and sample",
+    "C10_model_is_source_is_complete": "the translation of the whole property ThetaHolder.is_complete equals the model's is_complete, for every object",
+    "C10_model_is_source_combine": "the translation of the whole method ThetaHolder.combine equals, for ALL pairs of objects: Err if their classes differ (the guard the model leaves out), else a new instance of ThetaHolder itself holding the model's combine_holders of the two attribute values",
+    "C10_model_is_source_concat": "the translation of the whole classmethod ThetaHolder.concat (two length tests, instances[0], the loop over instances[1:] with class guard and first = first.combine(instance)) equals the model's concat_holders for ALL lists of instances of ThetaHolder itself (representation map as_obj h = (class 0, h); the tree has no subclass)",
     "C10_load_save": "load (save h) = Ok h for every holder with 1 <= #samples <= declared size whose samples share their shared parameters: same declared size, number, order, values (any file iteration order of distinct decimal keys would do; the model uses h5py's lexicographic one)",
     "C10_load_save_complete": "the same for complete holders (n >= 1 samples, declared n)",
     "C10_load_save_general": "for ANY non-empty holder within its declared size, load (save h) = Ok (h with every sample's shared parameters replaced by those of sample 0)",
@@ -57,11 +64,21 @@ THEOREMS = {
 ASSUMPTIONS = [
     "an HDF5 dataset / attribute read through h5py returns the array / scalar written (dtype, shape, bits), and from_dicts rebuilds a sample from its two dicts: abstracted in the model (sample = opaque pair private/shared), checked bit-for-bit on every roundtrip case",
     "h5py iterates group names in lexicographic order (checked by the `keys` cases against the model's file order); the round-trip theorem does not depend on it",
-    "the type(self) != type(other) guards of combine/concat are not modelled (one holder class in the tree)",
+    "the type(self) != type(other) guards of combine/concat are not part of the model's combine_holders/concat_holders (one holder class in the tree); they ARE part of the source translation: C10_model_is_source_combine states the guard, C10_model_is_source_concat is stated for lists of instances of ThetaHolder itself",
+    "source-translation link: trusted are the translator harness/py2gal.py (its rendering of if / raise / return / for / arithmetic / comparisons / list + / attribute read, store and .append on an object held as a value (class id, attributes) - aliasing is not modelled; add_theta's in-place append is the only mutation and the translation returns the new self) and the primitives configured in harness/src_functions.py C10_*: len(l) = Z.of_nat (length l); l[i] = PyRt.list_get (negative index from the end, IndexError otherwise); l[1:] = tl l; type(a) != type(b) = the class ids differ; attributes self.thetas / self._n_thetas = the two fields of the model's holder (getter / one-field-replaced setter); ThetaHolder(n) = the translated __init__ applied to a fresh instance of class 0; h.n_thetas = the translated property n_thetas; a.combine(b) = the translated method combine (method and property dispatch: no subclass overrides them)",
     "n_thetas is an unbounded integer in the model (int64 attribute in the file)",
     "shared parameters are shared: the round trip of a holder whose samples carry different single-effect tables is characterised (C10_load_save_general) and checked by correspondence, not counted as a violation unless VERIF_C10_STRICT_SHARED=1",
 ]
-EXPLANATION = ("Model: Model/Thetas.v.  Modelled, not verified: h5py/HDF5 storage of arrays and scalars, numpy, dataclass "
+EXPLANATION = ("Tie to the code, two ways: (1) the whole methods ThetaHolder.__init__, n_thetas, get_theta, add_theta, is_complete, combine and "
+               "concat are re-translated from /repo's current source on every run (harness/py2gal.py -> Generated/SrcThetas.v; fail-closed: a "
+               "construct outside the fragment, a changed parameter list or an undeclared variable stops the build) and the seven "
+               "C10_model_is_source_* theorems prove the translations equal to the hand-written model for all inputs (objects are (class id, "
+               "holder); concat via the representation map as_obj) - trusted there: the translator and the primitives len, l[i], l[1:], "
+               "type(a) != type(b), the two attribute getters/setters, and the dispatch of ThetaHolder(n) / .n_thetas / .combine to the "
+               "translated __init__ / property / method (see ASSUMPTIONS).  save_h5 and load_h5 are NOT translated (h5py / dict plumbing on "
+               "almost every line); their key handling (str(i) group names, h5py's lexicographic iteration, sorted(..., key=int)) is "
+               "modelled by hand and tied to the code by (2) the differential correspondence below.  "
+               "Model: Model/Thetas.v.  Modelled, not verified: h5py/HDF5 storage of arrays and scalars, numpy, dataclass "
                "construction in from_dicts, predict_viability (only used to recognise which sample produced which prediction "
                "column of evaluate_model).  ModelEvaluation.save_h5/load_h5 are used as-is to read the CLI's output.")
 
